@@ -10,23 +10,29 @@ T1 = 'HW_CPU_X86_AVX'
 
 def states(quick):
     two = {'total': 2}
-    s1 = [reqs.mk_rp(1), reqs.mk_rp(2), reqs.put_invs(P(1), 0, {'VCPU': two}),
+    s0 = [reqs.mk_rp(1), reqs.mk_rp(2), reqs.put_invs(P(1), 0, {'VCPU': two}),
           reqs.put_invs(P(2), 0, {'VCPU': two})]
+    # K9 on P2 only makes the project / user / consumer-type rows exist: claims racing from a
+    # database without them also race for the creation of those rows (8 more small write
+    # transactions per request, 25x the schedules) -- kept as one thorough scenario ('virgin')
+    s1 = s0 + [reqs.put_alloc(K(9), {P(2): {'VCPU': 1}})]
     s2 = [reqs.mk_rp(1), reqs.mk_rp(2), reqs.put_invs(P(1), 0, {'VCPU': {'total': 3}}),
           reqs.put_invs(P(2), 0, {'VCPU': two}), reqs.put_alloc(K(1), {P(1): {'VCPU': 1}})]
-    s3 = s1 + [reqs.put_alloc(K(1), {P(1): {'VCPU': 2}})]
+    s3 = s0 + [reqs.put_alloc(K(1), {P(1): {'VCPU': 2}})]
     s4 = [reqs.mk_rp(1), reqs.mk_rp(2, parent=P(1)),
           reqs.put_invs(P(1), 0, {'VCPU': {'total': 4, 'reserved': 1, 'max_unit': 2}}),
           reqs.put_invs(P(2), 0, {'VCPU': {'total': 3, 'allocation_ratio': 1.5}}),
           reqs.put_alloc(K(1), {P(1): {'VCPU': 1}, P(2): {'VCPU': 2}})]
     # (name, setup, P1 generation, K1 generation or None)
-    out = [('cap2 empty', s1, 1, None), ('cap3 K1 holds 1', s2, 2, 1)]
+    # (.., P2 generation)
+    out = [('cap2 empty', s1, 1, None, 2), ('cap3 K1 holds 1', s2, 2, 1, 1)]
     if not quick:
-        out += [('cap2 full', s3, 2, 1), ('nested constrained', s4, 2, 1)]
+        out += [('cap2 full', s3, 2, 1, 1), ('nested constrained', s4, 2, 1, 2),
+                ('virgin', s0, 1, None, 1)]
     return out
 
 
-def ops(pg, g1):
+def ops(pg, g1, p2g=1):
     return [
         reqs.put_alloc(K(2), {P(1): {'VCPU': 2}}, cgen=None, tag='PUT K2 P1:2'),
         reqs.put_alloc(K(3), {P(1): {'VCPU': 1}}, cgen=None, tag='PUT K3 P1:1'),
@@ -42,20 +48,26 @@ def ops(pg, g1):
         reqs.put_aggs(P(1), pg, [A(1)], tag='PUT aggregates P1'),
         reqs.del_inv(P(1), 'VCPU', tag='DELETE inventory P1/VCPU'),
         reqs.put_alloc(K(1), {}, cgen=g1, tag='PUT K1 clear (own generation)'),
+        # a write to the provider a two-provider claim visits second: the claim's server-side
+        # retries (independent re-reads while its own first bump is uncommitted) are all doomed
+        reqs.put_invs(P(2), p2g, {'VCPU': {'total': 3}}, tag='PUT inventories P2 grow to 3'),
+        reqs.put_alloc(K(3), {P(2): {'VCPU': 1}}, cgen=None, tag='PUT K3 P2:1'),
     ]
 
 
 QUICK = [(0, 1), (0, 2), (0, 3), (0, 4), (0, 5), (0, 6), (1, 4), (2, 2), (2, 5), (3, 5), (3, 9),
          (4, 5), (4, 6), (5, 6), (5, 7), (0, 7), (0, 8), (7, 8), (0, 9), (1, 3), (2, 6),
-         (3, 10), (0, 10), (5, 10)]
+         (3, 10), (0, 10), (5, 10), (2, 11), (2, 12)]
 
 
 def scenarios(quick):
     out = []
-    for name, setup, pg, g1 in states(quick):
-        o = ops(pg, g1)
+    for name, setup, pg, g1, p2g in states(quick):
+        o = ops(pg, g1, p2g)
         pairs = QUICK if quick else list(itertools.combinations_with_replacement(
             range(len(o)), 2))
+        if name == 'virgin':
+            pairs = [(0, 1), (2, 11)]
         for a, b in pairs:
             ra, rb = o[a], o[b]
             if a == b and 'allocations' in ra['path']:
@@ -78,14 +90,14 @@ def run(ctx):
     ctx.budget = ctx.budget or (200 if ctx.quick else 3000)
     sc = scenarios(ctx.quick)
     tot = explore_conc.run_scenarios(ctx, 'C07', sc)
-    fill(ctx, tot, len(sc), '%d start states (capacity 2 empty / capacity 3 partly used%s) x '
+    fill(ctx, tot, len(sc), '%d start states (capacity 2 unused / capacity 3 partly used%s) x '
          'pairs (%s) of: allocation writes for different and the same consumers whose joint demand '
          'exceeds / equals / is below the free capacity, a multi-provider write, a POST /allocations '
          'batch, generation-guarded PUT inventories shrinking below / growing above the demand, PUT '
          'traits, PUT aggregates, DELETE inventory x ALL interleavings at top-level-transaction '
          'granularity%s' % (
              len(states(ctx.quick)), '' if ctx.quick else ' / full / nested with unit constraints '
-             'and fractional ratio', '%d selected' % len(QUICK) if ctx.quick else 'all',
+             'and fractional ratio / a database without project, user and type rows (2 pairs)', '%d selected' % len(QUICK) if ctx.quick else 'all',
              '' if ctx.quick else '; plus 16 triples with preemption bound 2'))
     ctx.coverage['retry_path_note'] = (
         'scenarios_exercising_independent_reread counts scenarios in which replace_all() entered '
